@@ -134,10 +134,14 @@ fn run_property(id: &str, tier: &Tier, known: &Known) -> i32 {
     if reg.stats.evaluations > 0 || reg.harness_error.is_some() {
         results.push(reg);
     }
-    if id == "C19" || id == "C05" || id == "C20" {
+    if matches!(id, "C19" | "C05" | "C20" | "C01" | "C02" | "C03" | "C10") {
         let pid: &'static str = match id {
             "C19" => "C19",
             "C20" => "C20",
+            "C01" => "C01",
+            "C02" => "C02",
+            "C03" => "C03",
+            "C10" => "C10",
             _ => "C05",
         };
         results.push(vcheck::p_builder::run_external(pid, tier.quick, tier.seed));
